@@ -353,6 +353,47 @@ def r3_r4_from_angles(ck, prog, run):
                     ck.eq("R4", fa.where, tag + ": sign and flag", "the stored flag and the real numbers handed to day_frac represent i^a*i^b (resp. i^a/i^b) times the magnitudes: i*i = -1",
                           represented, true)
     run.floor("R4", "real/imaginary combinations of from_angles", n, 12)
+    # R3 storage: whatever the shapes of the parts, the factor and the divisor, both parts of the result are stored in a
+    # record array of their (broadcast) shape - nothing raises, nothing is truncated
+    K3 = sp.Integer(3)
+    shapes = [((), (), (K3,), "factor"), ((), (), (K3,), "divisor"), ((K3,), (K3,), (sp.Integer(2), sp.Integer(1)), "divisor"),
+              ((K3,), (), (), "factor"), ((), (K3,), (K3,), "divisor")]
+    n_st = 0
+    for s1, s2, sk, kind in shapes:
+        tag = f"from_angles(phase1 shape {tuple(s1)}, phase2 shape {tuple(s2)}, {kind} shape {tuple(sk)})"
+        ph1 = Num(P1 * CYCLE, kind="quantity", unit=CYCLE, dtype=ExtV("numpy.float64"), shape=s1 or None)
+        ph2 = Num(P2 * CYCLE, kind="quantity", unit=CYCLE, dtype=ExtV("numpy.float64"), shape=s2 or None)
+        fv = Num(Fv, dtype=ExtV("numpy.float64"), shape=sk or None, kind="array" if sk else "number")
+        from ..extapi import h_broadcast_shapes
+        from ..values import TupleV as _T
+        got = {}
+
+        def ov_df(ev, a, kw, node, fr, fn, got=got):
+            names = ["val1", "val2", "factor", "divisor"]
+            b = dict(zip(names, a))
+            b.update(kw)
+            shp = h_broadcast_shapes(ev, [_T([Num(x) for x in (v.shape or ())]) for v in b.values() if isinstance(v, Num)], {}, fr, node)
+            dims = tuple(i.expr for i in shp.items)
+            got["shape"] = dims
+            return _T([Num(sp.Symbol("COUNT", real=True), kind="array", shape=dims), Num(sp.Symbol("FRACTION", real=True), kind="array", shape=dims)])
+        ev = phase_evaluator(prog, PhaseLog(), capture_day_frac=True)
+        ev.overrides[PH + "day_frac"] = ov_df
+        try:
+            res = ev.call(fa, [ph1, ph2], {kind: fv}, cls_val=cls)
+        except Raised as e:
+            ck.same("R3", fa.where, tag, "the two parts are stored whatever shape the operands broadcast to", False, found=f"raises {e}"[:160], nontrivial=True)
+            n_st += 1
+            continue
+        except (Unsupported, DimensionError) as e:
+            ck.unk("R3", fa.where, tag, "storage of the result evaluates", str(e)[:200])
+            continue
+        buf = res.attrs.get("_recbuf") if isinstance(res, ObjV) else None
+        ok = buf is not None and tuple(buf.payload["shape"]) == tuple(got.get("shape", ("?",))) \
+            and str(getattr(buf.payload["fields"].get("int"), "expr", "")) == "COUNT" and str(getattr(buf.payload["fields"].get("frac"), "expr", "")) == "FRACTION"
+        ck.same("R3", fa.where, tag, "the result is a record array of the broadcast shape holding the count in 'int' and the fraction in 'frac'", ok,
+                found=(f"shape {buf.payload['shape']}, fields {buf.payload['fields']}" if buf is not None else repr(res))[:200], nontrivial=True)
+        n_st += 1
+    run.floor("R3", "result-storage cases decided", n_st, 4)
     # mixed parts are refused
     try:
         capture([Num(P1 * CYCLE, kind="quantity", unit=CYCLE, dtype=ExtV("numpy.float64")),
